@@ -41,8 +41,8 @@ CLAIMED['C07'] = dict(
     note='Trusted: Kani/CBMC; the stub IR (same names, flags for name/option-derived predicates); the composition argument is on paper. Not covered: UsedTemplateParameters::constrain (locality / monotonicity of the set-valued rule) and the closure computation of its new(), edges libclang fails to create, lookups in codegen, nodes with more than 3 neighbour slots.',
     ref='DESIGN.md section 3, C07')
 CLAIMED['C08'] = dict(
-    text='Rule level: for each of the five DeriveTraits and each TypeKind variant the real CannotDerive::constrain (constrain_type, constrain_join, insert, the blocklisted-type decision of context.rs, FunctionSig::function_pointers_can_derive) produces exactly max(previous fact, SPEC) where SPEC is an independent transcription of the documented rules, from an arbitrary pre-state - both directions (never derived when forbidden, never withheld when allowed). Plus the CanDerive lattice laws.',
-    note='Trusted: Kani/CBMC; the specification in harness/ir_derive_spec.rs; stub IR. Equality of one-step functions implies equality of least fixed points (paper). Not covered: rustc acceptance, hand-written impl bodies, derives_of_item, option gates in context.rs.',
+    text='Rule level: for each of the five DeriveTraits and each TypeKind variant the real CannotDerive::constrain (constrain_type, constrain_join, insert, the blocklisted-type decision of context.rs, FunctionSig::function_pointers_can_derive) produces exactly max(previous fact, SPEC) where SPEC is an independent transcription of the documented rules, from an arbitrary pre-state - both directions (never derived when forbidden, never withheld when allowed). Plus the CanDerive lattice laws, the option gates of context.rs and derives_of_item (kernel gates), and the hand-written impl bodies (kernel manual_impls): the REAL codegen/impl_debug.rs and codegen/impl_partialeq.rs compiled against token stubs - the generated Debug body is a well-formed write! with as many arguments as placeholders, each argument a named member or the getter of a named bit-field of that struct, a member printed iff its type can be; the PartialEq body has one conjunct per base with storage, data member and named bit-field, same member on both sides (finding F11, a Debug body that did not compile, was found and fixed here).',
+    note='Trusted: Kani/CBMC; the specification in harness/ir_derive_spec.rs; stub IR. Equality of one-step functions implies equality of least fixed points (paper). Not covered: rustc acceptance, executing the hand-written bodies on C-filled objects, the Default body (write_bytes template) and the needs_*_impl decisions in CompInfo::codegen.',
     ref='DESIGN.md section 3, C08')
 CLAIMED['C09'] = dict(
     text='Traversal level: per TypeKind variant the edges emitted by the real Trace impls equal the references the IR node holds; one ItemTraversal::next() from an arbitrary (seen, queue) state yields the queue top, records exactly its predicate-admitted successors (closure and minimality per step) and keeps the queue = unvisited discovered items; the allowlisting wrapper never yields a blocklisted item but follows its references; codegen_edges equals its documented table over all EdgeKinds and CodegenConfig values. Root selection: the real filter closure of compute_allowlisted_and_codegen_items selects an item as a root iff the documented rule for its kind says so (pattern of its kind or --allowlist-item on its path, allowlisted file, replaces-annotation, modules always, built-in kinds and stdint names when not recursive, unnamed top-level enums through any variant name), for every item kind and TypeKind variant.',
